@@ -133,6 +133,10 @@ def finish(prop, tier, seed, contracts, results, extra, t0, write_baseline=False
                 rep["failing_input"] = found[0]
                 rep["observed_vs_expected"] = found[1]
                 rep["replay_call"] = {"function": o.get("function"), "args": found[0]}
+                if isinstance(found[1], dict) and found[1].get("bounded_check"):
+                    rep["bounded_check"] = found[1]["bounded_check"]
+                elif o.get("kind") in ("finite", "static", "conformance", "bounded"):
+                    rep["finite_obligation"] = True
             path = os.path.join("replays", f"{prop}-{safe(o.get('function', 'finite'))}-{safe(o['name'])}.json")
             json.dump(rep, open(os.path.join(ROOT, path), "w"), indent=1, ensure_ascii=True, default=repr)
             violations.append((o, path, found is not None))
